@@ -183,6 +183,20 @@ def check3(ctx, cid, P, st, deep=True):
                 cmp(ctx, cid, 'UnitDualQuaternion.conj', P, Yi.A, np.eye(4), sc, 'dq * dq.conj() -> identity')
     if not deep:
         return
+    # the logarithm of the objects AS THE OPERATIONS LEFT THEM (an inverse may hold a transposed view, a product a fresh array): its reference
+    # exponential is the state (near half turns the logarithm itself is only good to ~1e-8: inside the 1e-6 of this property)
+    if Rr is not None:
+        L = safe(ctx, cid, 'SO3.log', P, lambda: Rr.log())
+        if L is not None and np.shape(L) == (3, 3):
+            L = np.asarray(L, dtype=float)
+            cmp(ctx, cid, 'SO3.log', P, ref.mp_to_np(ref.mp_exp_so3([L[2, 1], L[0, 2], L[1, 0]])[0]), R, 1, 'exp(SO3.log()) (reference exponential)')
+        Lv = safe(ctx, cid, 'SO3.log', P, lambda: Rr.log(twist=True))
+        if Lv is not None and np.shape(Lv) == (3,):
+            cmp(ctx, cid, 'SO3.log', P, ref.mp_to_np(ref.mp_exp_so3(np.asarray(Lv, dtype=float))[0]), R, 1, 'exp(SO3.log(twist=True)) (reference exponential)')
+    if X is not None:
+        Lv = safe(ctx, cid, 'SE3.log', P, lambda: X.log(twist=True))
+        if Lv is not None and np.shape(Lv) == (6,) and np.all(np.isfinite(np.asarray(Lv, dtype=float))):
+            cmp(ctx, cid, 'SE3.log', P, ref.mp_exp_se3(np.asarray(Lv, dtype=float)), M, sc, 'exp(SE3.log(twist=True)) (reference exponential)')
     # pairwise conversions and round trips
     if Rr is not None:
         q2 = safe(ctx, cid, 'UnitQuaternion(SO3)', P, S.UnitQuaternion, Rr)
